@@ -17,6 +17,7 @@ import extract as X  # noqa: E402
 VERIF = os.path.dirname(os.path.dirname(os.path.abspath(__file__)))
 REPO = X.REPO
 BUILD = os.path.join(VERIF, 'build')
+RUNDIR = os.path.join(BUILD, 'run_%d' % os.getpid())     # scratch of this check process (several checks may run side by side)
 CBMC_BASE = ['--no-signed-overflow-check', '--no-malloc-may-fail', '--pointer-primitive-check', '--drop-unused-functions']
 MEM_BYTES = 12 << 30
 CANARY = 'VERIF_REACH_CANARY'
@@ -272,7 +273,7 @@ def run_group(g, trace=False, workroot=None):
         return g.run_static()
     res = GroupResult(g)
     t0 = time.time()
-    workdir = os.path.join(workroot or BUILD, re.sub(r'[^A-Za-z0-9_.=-]', '_', g.name))
+    workdir = os.path.join(workroot or RUNDIR, re.sub(r'[^A-Za-z0-9_.=-]', '_', g.name))
     res.workdir = workdir
     try:
         if os.path.isdir(workdir):
